@@ -176,6 +176,7 @@ struct FnDirective {
     clauses: Vec<(String, String, Vec<String>)>,
     loops: BTreeMap<usize, Vec<(String, String, Vec<String>)>>,
     entry: Vec<String>,
+    tail: Vec<String>,
     body_props: Vec<String>,
 }
 
@@ -359,6 +360,15 @@ fn emit_fn(d: &FnDirective, srcs: &mut Sources, out: &mut Out, stats: &mut norm:
     if d.opts.contains_key("all-loops") && d.loops.len() != nloops {
         die("lost-anchor", &format!("{} has {} loops but {} are specified", desc, nloops, d.loops.len()));
     }
+    if !d.tail.is_empty() {
+        // ghost text goes in front of the function's final statement / tail expression
+        let n = block.stmts.len();
+        if n == 0 {
+            die("lost-anchor", &format!("{} has an empty body but a tail section", desc));
+        }
+        let st: syn::Stmt = syn::parse_quote!(__zx_tail!(););
+        block.stmts.insert(n - 1, st);
+    }
     let body = printer::pretty(block.to_token_stream(), indent);
     let body = replace_iter_markers(&body);
     // splice loop clauses and entry statements (text level, markers are unique)
@@ -390,6 +400,13 @@ fn emit_fn(d: &FnDirective, srcs: &mut Sources, out: &mut Out, stats: &mut norm:
             seg_start = out.cur();
             out.push(&format!("{}{{", lead));
             i += 2;
+            continue;
+        }
+        if line.trim() == "__zx_tail!();" {
+            for e in &d.tail {
+                out.push(&format!("{}{}", ind1, e.trim()));
+            }
+            i += 1;
             continue;
         }
         out.push(line);
@@ -503,6 +520,7 @@ fn main() {
         Clauses,
         Loop(usize),
         Entry,
+        Tail,
         Attr,
     }
     let mut sec = Sec::Clauses;
@@ -526,7 +544,7 @@ fn main() {
                 let opts = parse_opts(&parts[3..]);
                 let body_props = opts.get("props").map(|p| p.split(',').map(|s| s.to_string()).collect()).unwrap_or_default();
                 cur_fn = Some((
-                    FnDirective { src: parts[0].into(), container: parts[1].into(), name: parts[2].into(), opts, attrs: vec![], clauses: vec![], loops: BTreeMap::new(), entry: vec![], body_props },
+                    FnDirective { src: parts[0].into(), container: parts[1].into(), name: parts[2].into(), opts, attrs: vec![], clauses: vec![], loops: BTreeMap::new(), entry: vec![], tail: vec![], body_props },
                     indent,
                 ));
                 sec = Sec::Clauses;
@@ -551,6 +569,10 @@ fn main() {
             }
             if dir == "entry" {
                 sec = Sec::Entry;
+                continue;
+            }
+            if dir == "tail" {
+                sec = Sec::Tail;
                 continue;
             }
             if dir == "attr" {
@@ -600,6 +622,7 @@ fn main() {
                 Sec::Clauses => d.clauses.push((raw.clone(), cur_tag.0.clone(), cur_tag.1.clone())),
                 Sec::Loop(k) => d.loops.get_mut(&k).unwrap().push((raw.clone(), cur_tag.0.clone(), cur_tag.1.clone())),
                 Sec::Entry => d.entry.push(raw.clone()),
+                Sec::Tail => d.tail.push(raw.clone()),
                 Sec::Attr => d.attrs.push(t.to_string()),
             }
             continue;
